@@ -723,19 +723,19 @@ Qed.
 
 (* a state in which new work must not start *)
 Definition stop_requested (sof : bool) (c : ctx) : Prop :=
-  c_tasks_aborted c = true \/ c_pending c = Some false \/ c_aborted_session c = true \/
+  c_tasks_aborted c = true \/ c_pending c <> None \/ c_aborted_session c = true \/
   (sof = true /\ c_has_failures c = true).
 
 Theorem no_run_after_stop g sof s t j :
-  stop_requested sof (cx s) -> c_pending (cx s) <> Some true -> decide g sof s t j <> Run.
+  stop_requested sof (cx s) -> decide g sof s t j <> Run.
 Proof.
-  intros H Hp. unfold decide. destruct j; [|discriminate].
+  intros H. unfold decide. destruct j; [|discriminate].
   destruct (dep_skip s (t_succ (get_task g t))); [discriminate|].
   unfold ctx_skip.
-  destruct (c_tasks_aborted (cx s)) eqn:E1; [simpl; discriminate|].
-  destruct (c_pending (cx s)) as [[|]|] eqn:E2; [congruence|simpl; discriminate|].
-  destruct (c_aborted_session (cx s)) eqn:E3; [simpl; discriminate|].
-  destruct (kind_eqb _ _ && _); [simpl; discriminate|].
+  destruct (c_tasks_aborted (cx s)) eqn:E1; [discriminate|].
+  destruct (c_pending (cx s)) as [e|] eqn:E2; [discriminate|].
+  destruct (c_aborted_session (cx s)) eqn:E3; [discriminate|].
+  destruct (kind_eqb _ _ && _); [discriminate|].
   destruct H as [H|[H|[H|[H1 H2]]]]; try congruence.
   rewrite H1, H2. simpl. discriminate.
 Qed.
@@ -743,35 +743,34 @@ Qed.
 Lemma stop_requested_mono sof a b : ctx_le a b -> stop_requested sof a -> stop_requested sof b.
 Proof.
   intros [A1 [A2 [A3 [A4 A5]]]] [H|[H|[H|[H1 H2]]]]; unfold stop_requested; auto.
-  right; right; right; auto.
+  - right. left. destruct (c_pending a) as [e|] eqn:E; [|congruence]. rewrite (A2 e eq_refl). discriminate.
+  - right; right; right; auto.
 Qed.
 
 (* tests of an aborted suite (not of its sub-suites) are not run *)
 Theorem no_run_in_aborted_suite g sof s t :
   t_kind (get_task g t) = KTest -> In (parent_path (t_path (get_task g t))) (c_aborted_suites (cx s)) ->
-  c_pending (cx s) <> Some true -> decide g sof s t JHandle <> Run.
+  decide g sof s t JHandle <> Run.
 Proof.
-  intros Hk Hin Hp. unfold decide.
+  intros Hk Hin. unfold decide.
   destruct (dep_skip s (t_succ (get_task g t))); [discriminate|].
   unfold ctx_skip.
-  destruct (c_tasks_aborted (cx s)); [simpl; discriminate|].
-  destruct (c_pending (cx s)) as [[|]|]; [congruence|simpl; discriminate|].
-  destruct (c_aborted_session (cx s)); [simpl; discriminate|].
+  destruct (c_tasks_aborted (cx s)); [discriminate|].
+  destruct (c_pending (cx s)) as [e|]; [discriminate|].
+  destruct (c_aborted_session (cx s)); [discriminate|].
   rewrite Hk. simpl.
   assert (E : existsb (path_eqb (parent_path (t_path (get_task g t)))) (c_aborted_suites (cx s)) = true).
   { apply existsb_exists. exists (parent_path (t_path (get_task g t))). split; auto.
     clear. induction (parent_path (t_path (get_task g t))) as [|a l IH]; simpl; auto. rewrite Nat.eqb_refl. auto. }
-  rewrite E. simpl. discriminate.
+  rewrite E. discriminate.
 Qed.
 
-(* F17: a pending handler failure whose text is empty does not stop anything *)
-Theorem empty_handler_text_does_not_skip :
-  exists g sof s t, c_pending (cx s) = Some true /\ decide g sof s t JHandle = Run.
-Proof.
-  exists [mkTask KTest [3; 4] [] []], false,
-         (mkSt [] [] [] [] [] [] (raise_flag ctx0 (FPending true)) PLoop []), 0.
-  split; reflexivity.
-Qed.
+(* F17 (fixed in /repo): a pending handler failure stops new work whatever its text, the empty text included *)
+Theorem handler_failure_skips_whatever_the_text g sof s t e :
+  c_tasks_aborted (cx s) = false -> c_pending (cx s) = Some e ->
+  dep_skip s (t_succ (get_task g t)) = None ->
+  decide g sof s t JHandle = Skip (Some (RHandler e)).
+Proof. intros A B C. unfold decide, ctx_skip. rewrite C, A, B. reflexivity. Qed.
 
 (* a keyboard interrupt raises the abort flag and leaves the normal loop; the runnable remaining tasks are queued to be
    skipped, the others stay in [remaining] until their dependencies are completed *)
